@@ -32,6 +32,13 @@ def geny(p_geny):
     yield p_geny or "value-dependent"
 
 
+def gen_span(p_span):
+    """started in one tracing session, finished in the next"""
+    yield [p_span]
+    yield {"w": 1, "x": "s", "y": 2.0, "z": None, "v": b""}
+    return [p_span]
+
+
 def emptied(p_emptied):
     """hands back the very dict it was given, emptied in place"""
     if type(p_emptied) is dict:
